@@ -69,7 +69,7 @@ func (e *Engine) verifyFunction(fn *ssa.Function, fc *FuncContract, ifaceNames [
 		}
 		sort.Strings(rep.Assumed)
 	}()
-	st := &State{guard: "true", mi: "MI0", mr: "MR0", top: "alloc0", ghost: map[string]string{}, kept: map[string]bool{}}
+	st := &State{guard: "true", mi: "MI0", mr: "MR0", top: "alloc0", ghost: map[string]string{}, kept: map[string]bool{}, visited: map[string]string{}}
 	for _, g := range e.contracts.Ghosts {
 		n := vc.fresh("gh0_"+g, "Int")
 		st.ghost[g] = n
